@@ -27,7 +27,7 @@ def _verify_one(args):
     R = Registry().load_dir(os.path.join(VERIF, 'contracts'), only=[prop])
     W = World(REPO)
     if kind == 'fn':
-      c = [c for c in R.for_prop(prop) if c.target == name][0]
+      c = [c for c in R.for_prop(prop) if c.key == name][0]
       r = verify_function(W, R, c, prop, timeout_ms)
       extra = dict(replay=c.replay, bounded=c.bounded, note=c.note)
     else:
@@ -107,7 +107,7 @@ def main(argv=None):
   from pyvc.contracts import Registry
   R = Registry().load_dir(os.path.join(VERIF, 'contracts'), only=[prop])
   timeout_ms = 20000 if tier == 'quick' else 120000
-  jobs = [('fn', c.target, prop, timeout_ms) for c in R.for_prop(prop)]
+  jobs = [('fn', c.key, prop, timeout_ms) for c in R.for_prop(prop)]
   jobs += [('lemma', l.name, prop, timeout_ms) for l in R.lemmas if l.prop == prop]
   if not jobs and not R.bounded_checks.get(prop):
     print(f'CHECKER-ERROR property={prop}: no contracts registered')
